@@ -44,6 +44,19 @@ fn conv(args: &[String]) {
                         let b = G2Affine::deserialize_compressed(&util::unhex(&t[3..])[..]).unwrap();
                         util::ser_hex(&(b.into_group() * efr()).into_affine())
                     }
+                    t if t.starts_with("G1L@") => {
+                        // one token = the coefficients (comma separated) of a combination of the listed G1 points
+                        use ark_ec::{AffineRepr, CurveGroup};
+                        use ark_serialize::CanonicalDeserialize;
+                        let basis: Vec<G1Affine> = t[4..].split(',').map(|h| G1Affine::deserialize_compressed(&util::unhex(h)[..]).unwrap()).collect();
+                        let mut acc = <G1Affine as AffineRepr>::Group::default();
+                        for (k, es) in s.split(',').enumerate() {
+                            if es.is_empty() { continue; }
+                            let e: Fr = util::f_from_str(es);
+                            if k < basis.len() { acc += basis[k].into_group() * e; }
+                        }
+                        util::ser_hex(&acc.into_affine())
+                    }
                     t if t.starts_with("EDL@") => {
                         // one token = the coefficients (comma separated) of a combination of the listed Edwards points
                         use ark_ec::{AffineRepr, CurveGroup};
